@@ -54,7 +54,7 @@ SExec(stmts, env, ret) ==
   IF ret.done \/ stmts = <<>> THEN [env |-> env, ret |-> ret]
   ELSE LET s == Head(stmts) rest == Tail(stmts) IN
        CASE s.t = "Assign" -> SExec(rest, [env EXCEPT ![NameOf(s.f.targets.items[1])] = SEval(s.f.value, env)], ret)
-         [] s.t = "AugAssign" -> SExec(rest, [env EXCEPT ![NameOf(s.f.target)] = @ + SEval(s.f.value, env)], ret)
+         [] s.t = "AugAssign" -> SExec(rest, [env EXCEPT ![NameOf(s.f.target)] = (IF s.f.op.t = "Sub" THEN @ - SEval(s.f.value, env) ELSE IF s.f.op.t = "Mult" THEN @ * SEval(s.f.value, env) ELSE @ + SEval(s.f.value, env))], ret)
          [] s.t = "Return" -> [env |-> env, ret |-> [done |-> TRUE, v |-> SEval(s.f.value, env)]]
          [] s.t = "If" -> LET r == IF SEval(s.f.test, env) # 0 THEN SExec(s.f.body.items, env, ret) ELSE SExec(s.f.orelse.items, env, ret) IN
                           SExec(rest, r.env, r.ret)
@@ -150,7 +150,7 @@ AExec(stmts, env, ret) ==
   IF ret.done \/ stmts = <<>> THEN [env |-> env, ret |-> ret]
   ELSE LET s == Head(stmts) rest == Tail(stmts) IN
        CASE s.t = "Assign" -> AExec(rest, [env EXCEPT ![NameOf(s.f.targets.items[1])] = AEval(s.f.value, env)], ret)
-         [] s.t = "AugAssign" -> AExec(rest, [env EXCEPT ![NameOf(s.f.target)] = Lift2(LAMBDA p, q : p + q, @, AEval(s.f.value, env))], ret)
+         [] s.t = "AugAssign" -> AExec(rest, [env EXCEPT ![NameOf(s.f.target)] = Lift2(LAMBDA p, q : IF s.f.op.t = "Sub" THEN p - q ELSE IF s.f.op.t = "Mult" THEN p * q ELSE p + q, @, AEval(s.f.value, env))], ret)
          [] s.t = "Return" -> [env |-> env, ret |-> [done |-> TRUE, v |-> AEval(s.f.value, env)]]
          [] OTHER -> [env |-> env, ret |-> [done |-> TRUE, v |-> CallErr]]
 ARun(body, env) == AExec(body, env, [done |-> FALSE, v |-> CallErr]).ret.v
